@@ -22,7 +22,8 @@ JoinT(ss, sep) == IF ss = <<>> THEN "" ELSE IF Len(ss) = 1 THEN ss[1] ELSE ss[1]
 \* ---- scalar pools.  s is the Abra literal; ints/bools/floats print in Rust Debug exactly as the literal
 \* (the float literals are chosen that way); Abra prints floats through Rust Display.
 IntPool == <<"0", "1", "-1", "42", "-7", "255", "65536", "2147483647", "2147483648", "-2147483649",
-             "4294967296", "9007199254740993", "9223372036854775807", "-9223372036854775807">>
+             "4294967296", "9007199254740993", "9223372036854775807", "-9223372036854775807",
+             "-9223372036854775808">>
 FloatPool == <<"0.5", "2.0", "-1.25", "0.0", "1000000.0", "3.75", "-0.5", "123456.789">>
 FloatDisp(s) == CASE s = "2.0" -> "2" [] s = "0.0" -> "0" [] s = "1000000.0" -> "1000000" [] OTHER -> s
 BoolPool == <<"true", "false">>
@@ -164,10 +165,12 @@ HostCallDbg(sig, vs) ==
   sig.camel \o (IF sig.args = <<>> THEN "" ELSE "(" \o DbgArgs(sig.args, vs) \o ")")
 
 Marker == "424242"
-\* the caller: bind the arguments with their declared types, call, print what came back, print a local that
-\* lives below the call's operands on the stack
+Marker2 == "515151"
+\* the caller: two locals around the arguments (they live below the call's operands on the stack), bind the
+\* arguments with their declared types, call, print what came back, then the locals and the arguments again
 MainText(users, sig, vs) ==
   LET n == Len(sig.args)
+      nv == NonVoidIdx(sig.args)
       lets == [j \in 1..n |->
                 IF IsVoid(sig.args[j]) THEN ""
                 ELSE "let a" \o ToString(j) \o ": " \o AbraTy(sig.args[j]) \o " = " \o AbraLit(sig.args[j], vs[j]) \o "\n"]
@@ -176,10 +179,44 @@ MainText(users, sig, vs) ==
      \o JoinT([j \in 1..Len(users) |-> TypeImpl(users[j])], "")
      \o "let marker = " \o Marker \o "\n"
      \o JoinT(lets, "")
+     \o "let marker2 = " \o Marker2 \o "\n"
      \o (IF IsVoid(RetTy(sig)) THEN call \o "\n" ELSE "let r = " \o call \o "\nprintln(r)\n")
-     \o "println(marker)\n"
+     \o "println(marker)\nprintln(marker2)\n"
+     \o JoinT([j \in 1..Len(nv) |-> "println(a" \o ToString(nv[j]) \o ")\n"], "")
 ExpectOut(sig, vs) ==
-  (IF IsVoid(RetTy(sig)) THEN "" ELSE AbraShow(RetTy(sig), RetVal(sig, vs)) \o "\n") \o Marker \o "\n"
+  LET nv == NonVoidIdx(sig.args)
+  IN (IF IsVoid(RetTy(sig)) THEN "" ELSE AbraShow(RetTy(sig), RetVal(sig, vs)) \o "\n")
+     \o Marker \o "\n" \o Marker2 \o "\n"
+     \o JoinT([j \in 1..Len(nv) |-> AbraShow(sig.args[nv[j]], vs[nv[j]]) \o "\n"], "")
+
+\* ---- what a case exercises (for the coverage report)
+RECURSIVE TyFeat(_)
+TyFeat(t) ==
+  LET hasvoid == \E j \in 1..Len(t.ts) : IsVoid(t.ts[j])
+      own == CASE t.k = "arr" -> IF hasvoid THEN {"array<void>"} ELSE {"array"}
+               [] t.k = "opt" -> IF hasvoid THEN {"option<void>"} ELSE {"option"}
+               [] t.k = "res" -> IF hasvoid THEN {"result-with-void"} ELSE {"result"}
+               [] t.k = "tup" -> {"tuple" \o ToString(Len(t.ts))} \cup (IF hasvoid THEN {"tuple-with-void"} ELSE {})
+               [] t.k = "struct" -> IF hasvoid THEN {"struct-with-void-field"} ELSE {"struct"}
+               [] t.k = "variant" -> IF t.ts = <<>> THEN {"variant-no-field"}
+                                     ELSE IF Len(t.ts) = 1 THEN (IF hasvoid THEN {"variant-one-void-field"} ELSE {"variant-one-field"})
+                                     ELSE (IF hasvoid THEN {"variant-several-fields-with-void"} ELSE {"variant-several-fields"})
+               [] OTHER -> {t.k}
+  IN own \cup UNION {TyFeat(t.ts[j]) : j \in 1..Len(t.ts)}
+RECURSIVE ValFeat(_, _)
+ValFeat(t, v) ==
+  CASE t.k = "arr" -> {IF v.vs = <<>> THEN "value:empty-array" ELSE "value:array-" \o ToString(Len(v.vs))}
+                      \cup UNION {ValFeat(t.ts[1], v.vs[j]) : j \in 1..Len(v.vs)}
+    [] t.k \in {"tup", "struct"} -> UNION {ValFeat(t.ts[j], v.vs[j]) : j \in 1..Len(t.ts)}
+    [] t.k \in {"opt", "res", "enum"} ->
+         LET var == VariantsOf(t)[v.i + 1]
+         IN {"value:" \o (IF t.k = "enum" THEN "variant-tag-" \o ToString(v.i) ELSE var.name)}
+            \cup UNION {ValFeat(var.ts[j], v.vs[j]) : j \in 1..Len(var.ts)}
+    [] OTHER -> {}
+CaseFeat(sig, vs) ==
+  UNION {TyFeat(sig.args[j]) \cup ValFeat(sig.args[j], vs[j]) : j \in 1..Len(sig.args)}
+  \cup (IF \E j \in 1..Len(sig.args) : IsVoid(sig.args[j]) THEN {"void-parameter"} ELSE {})
+  \cup {"arity-" \o ToString(Len(sig.args)), "returns:" \o SigDesc(sig).ret}
 
 \* ---- defect families (see HostAbi: where the protocol as written and the compiler's layout disagree)
 KeyOf(sig, vs) ==
@@ -191,8 +228,21 @@ KeyOf(sig, vs) ==
      THEN "C36|tuple-with-void-element"
      ELSE ""
 
+\* the user types a signature needs: those its parameter types mention, and those mentioned by needed ones
+\* (a type may only mention types that precede it in `users`)
+RECURSIVE Mentions(_, _)
+Mentions(t, name) == (t.k \in {"struct", "enum"} /\ t.name = name) \/ \E j \in 1..Len(t.ts) : Mentions(t.ts[j], name)
+RECURSIVE NeededFrom(_, _, _)
+NeededFrom(users, k, roots) ==
+  IF k = 0 THEN <<>>
+  ELSE IF \E j \in 1..Len(roots) : Mentions(roots[j], users[k].name)
+       THEN NeededFrom(users, k - 1, Append(roots, users[k])) \o <<users[k]>>
+       ELSE NeededFrom(users, k - 1, roots)
+Needed(users, args) == NeededFrom(users, Len(users), args)
+
 \* the complete conformance case
-HostCase(id, users, sig, vs) ==
+HostCase(id, allusers, sig, vs) ==
+  LET users == Needed(allusers, sig.args) IN
   [id |-> id, main |-> id \o ".abra",
    types |-> [j \in 1..Len(users) |-> [name |-> users[j].name, decl |-> TypeDecl(users[j])]],
    decl |-> FnDecl(sig),
@@ -200,9 +250,7 @@ HostCase(id, users, sig, vs) ==
    text |-> MainText(users, sig, vs),
    arity |-> Len(sig.args),
    depth |-> MaxOf({TyDepth(sig.args[j]) : j \in 1..Len(sig.args)}),
-   kinds |-> LET RECURSIVE Kinds(_)
-                 Kinds(t) == {t.k} \cup UNION {Kinds(t.ts[j]) : j \in 1..Len(t.ts)}
-             IN UNION {Kinds(sig.args[j]) : j \in 1..Len(sig.args)},
+   feat |-> CaseFeat(sig, vs),
    expect |-> [status |-> "done", out |-> ExpectOut(sig, vs), host |-> <<HostCallDbg(sig, vs)>>]]
   @@ (IF KeyOf(sig, vs) # "" THEN [key |-> KeyOf(sig, vs)] ELSE <<>>)
 =============================================================================
